@@ -47,7 +47,7 @@ func (h *Histogram) MarshalJSON() ([]byte, error) {
 			buf.WriteString(", ")
 		}
 		var count uint64
-		if i < len(h.Counts) { // no result added yet
+		if i < len(h.Counts) { // Counts is empty until a result is added
 			count = h.Counts[i]
 		}
 		if _, err := fmt.Fprintf(&buf, "\"%d\": %d", h.Buckets[i], count); err != nil {
